@@ -139,7 +139,7 @@ func StripHost(h string) string {
 	if strings.HasPrefix(h, "[") {
 		if i := strings.IndexByte(h, ']'); i > 0 {
 			rest := h[i+1:]
-			if rest == "" || (rest[0] == ':' && allDigits(rest[1:])) {
+			if rest == "" || (rest[0] == ':' && allDigits(strings.TrimSuffix(rest[1:], "."))) {
 				if rest == "" {
 					return h // no port: unchanged
 				}
@@ -150,7 +150,7 @@ func StripHost(h string) string {
 	}
 	if c := strings.Count(h, ":"); c == 1 {
 		i := strings.IndexByte(h, ':')
-		if allDigits(h[i+1:]) {
+		if allDigits(strings.TrimSuffix(h[i+1:], ".")) { // (a dot after the port goes with it, as it always did)
 			h = h[:i]
 		} else {
 			return h
